@@ -111,6 +111,9 @@ def run (c : Case) : String :=
         -- decoy=1: the operator value was applied to a second upstream afterwards; a pipeline is a function of its own source
         -- (C12 reapply theorems), so that upstream is never subscribed and nothing else changes
         let decoy := if c.getD "decoy" "-" == "1" then " decoy=0" else ""
-        s!"res {c.id} trace={renderTrace (deliver cut r.raw)} log={renderLog r.log} attempts={r.attempts} live={maxLive r.log} evals={r.evals}{prompt}{decoy}"
+        -- again=1: the same pipeline subscribed once more after the first run is over, the scripted source starting over: the second
+        -- run is the first one again (C12 resubscribe theorems: no state survives a subscription)
+        let again := if c.getD "again" "-" == "1" then " again=same" else ""
+        s!"res {c.id} trace={renderTrace (deliver cut r.raw)} log={renderLog r.log} attempts={r.attempts} live={maxLive r.log} evals={r.evals}{prompt}{decoy}{again}"
 
 end Ro.Driver.Drivers.Resub
